@@ -140,7 +140,7 @@ pub fn derive_input(di: &syn::DeriveInput) -> String {
     out.push('i');
     out.push_str(&di.ident.to_string());
     out.push(' ');
-    // generics: ( (kind name (full tokens) hasPunct) ... )
+    // generics: ( (kind name (full tokens) hasPunct (tokens as `ImplGenerics` prints the parameter: no default)) ... )
     grp(&mut out, |out| {
         for pair in di.generics.params.pairs() {
             let p = pair.value();
@@ -161,6 +161,19 @@ pub fn derive_input(di: &syn::DeriveInput) -> String {
                 }
                 grp(out, |out| ts(out, &p.to_token_stream()));
                 out.push_str(if pair.punct().is_some() { "iy " } else { "in " });
+                // `impl ToTokens for ImplGenerics`: lifetimes in full, type / const parameters without their defaults
+                let impl_form = match p {
+                    syn::GenericParam::Lifetime(l) => l.to_token_stream(),
+                    syn::GenericParam::Type(t) => {
+                        let (attrs, ident, bounds) = (&t.attrs, &t.ident, &t.bounds);
+                        if bounds.is_empty() { quote::quote!(#(#attrs)* #ident) } else { quote::quote!(#(#attrs)* #ident: #bounds) }
+                    }
+                    syn::GenericParam::Const(c) => {
+                        let (attrs, ident, ty) = (&c.attrs, &c.ident, &c.ty);
+                        quote::quote!(#(#attrs)* const #ident: #ty)
+                    }
+                };
+                grp(out, |out| ts(out, &impl_form));
             });
         }
     });
